@@ -2396,3 +2396,201 @@ def c10_combine_two_pops(ns, tocombine):
         out.append(prove_eq(oid + '.total-conserved', pc, tot, sum(f.values(), z3.RealVal(0)), fn))
         return out
     return go()
+
+
+def c10_misc_combine_pops(ns, idx):
+    """Misc.combine_pops(fs, idx): the two populations in idx are merged along the first axis, entry [a, k] = sum of fs entries whose counts in
+    the two merged populations add to a and whose count in the remaining population is k (2-D input: a 1-D result)."""
+    ns = tuple(ns)
+    oid = 'C10/Misc.py:combine_pops/ns%s.idx%s' % ('_'.join(map(str, ns)), '_'.join(map(str, idx)))
+    fn = 'dadi/Misc.py::combine_pops'
+
+    @guarded(oid, fn)
+    def go():
+        shape = tuple(n + 1 for n in ns)
+        f = {i: z3.Real('f' + '_'.join(map(str, i))) for i in itertools.product(*[range(s) for s in shape])}
+        data = _nd_build(shape, lambda i: f[i])
+
+        extrap = Tm('extrap_x')
+
+        def gh(ex_, obj, name, ctx):
+            if obj is data and name == 'sample_sizes':
+                return VList(list(ns), 'ndarray')
+            if obj is data and name == 'extrap_x':
+                return extrap
+            return NotImplemented
+
+        def ah(ex_, fref, a, kw, ctx):
+            if (isinstance(fref, ClassRef) and fref.node.name == 'Spectrum') or (isinstance(fref, Tm) and 'Spectrum' in fref.op):
+                return a[0]
+            return NotImplemented
+        ex = Executor(getattr_hook=gh)
+        ex.abstract_hook = ah
+        fr = ex.func('dadi/Misc.py', 'combine_pops')
+        paths = ex.run(fr, [data, VList(list(idx))], {})
+        if len(paths) != 1 or paths[0].outcome != 'return':
+            return [struct(oid, False, 'expected one returning path: %r' % paths[:2], fn, undecided=True)]
+        res = paths[0].value
+        a, b = idx
+        rest = [p for p in range(len(ns)) if p not in (a, b)]
+        new_shape = (ns[a] + ns[b] + 1,) + tuple(ns[p] + 1 for p in rest)
+        got_shape = ex.list_method(res, 'shape') if isinstance(res, VList) else None
+        out = [struct(oid + '.shape', got_shape == new_shape, 'shape %s (got %s)' % (new_shape, got_shape), fn)]
+        if got_shape != new_shape:
+            return out
+        out.append(struct(oid + '.extrap_x', res.__dict__.get('attrs', {}).get('extrap_x') is extrap, 'extrap_x carried over', fn))
+        tot = z3.RealVal(0)
+        for j in itertools.product(*[range(s) for s in new_shape]):
+            src = [i for i in f if i[a] + i[b] == j[0] and tuple(i[p] for p in rest) == tuple(j[1:])]
+            out.append(prove_eq('%s.entry%s' % (oid, '_'.join(map(str, j))), list(paths[0].pc), _nd_get(res, j), sum((f[i] for i in src), z3.RealVal(0)), fn))
+            tot = tot + to_real(exact(_nd_get(res, j)))
+        out.append(prove_eq(oid + '.total-conserved', list(paths[0].pc), tot, sum(f.values(), z3.RealVal(0)), fn))
+        return out
+    return go()
+
+
+# ---------------------------------------------------------------- C16: size functions and per-epoch integration parameters
+def c16_make_nu_func():
+    """Demes._make_nu_func(sizes, T, Ne): all epochs constant -> the list of N0/Ne; otherwise one function of t per deme with
+       constant: N0/Ne;  linear: N0/Ne + (t/T)(NF-N0)/Ne;  exponential: (N0/Ne)(NF/N0)^(t/T)   (so nu(0) = N0/Ne and nu(T) = NF/Ne);
+       an unknown size function is refused.  Sizes enter only relative to Ne (the reference-size invariance of C16 rests on this)."""
+    oid = 'C16/Demes.py:_make_nu_func'
+    fn = 'dadi/Demes/Demes.py::_make_nu_func'
+
+    @guarded(oid, fn)
+    def go():
+        out = []
+        N0, NF = reals('N0_', 3), reals('NF_', 3)
+        T, Ne, t = z3.Reals('T Ne t')
+        hy = [T > 0, Ne > 0] + [x > 0 for x in N0 + NF]
+        ex = Executor()
+        f = ex.func('dadi/Demes/Demes.py', '_make_nu_func')
+        # all constant
+        sizes = VList([(N0[i], N0[i], 'constant') for i in range(2)])
+        paths = ex.run(f, [sizes, T, Ne], {}, base_pc=hy)
+        if len(paths) != 1 or paths[0].outcome != 'return':
+            out.append(struct(oid + '.all-constant', False, 'expected one returning path: %r' % paths[:2], fn, undecided=True))
+        else:
+            v = ex.iterate(paths[0].value)
+            out.append(struct(oid + '.all-constant.is-list-of-numbers', len(v) == 2 and all(is_scalar(exact(x)) for x in v), 'constant epochs give a plain list (the constant-parameter integrator path)', fn))
+            for i in range(min(2, len(v))):
+                if is_scalar(exact(v[i])):
+                    out.append(prove_eq('%s.all-constant.deme%d' % (oid, i), hy + list(paths[0].pc), v[i], N0[i] / Ne, fn))
+        # mixed
+        kinds = ['constant', 'linear', 'exponential']
+        sizes = VList([(N0[i], N0[i] if k == 'constant' else NF[i], k) for i, k in enumerate(kinds)])
+        paths = ex.run(f, [sizes, T, Ne], {}, base_pc=hy)
+        rets = [p for p in paths if p.outcome == 'return']
+        if len(rets) != 1:
+            out.append(struct(oid + '.mixed', False, 'expected one returning path: %r' % paths[:3], fn, undecided=True))
+            return out
+        funcs = ex.iterate(rets[0].value)
+        out.append(struct(oid + '.mixed.one-function-per-deme', len(funcs) == 3 and all(isinstance(x, (Closure, PyFn)) for x in funcs), 'three callables', fn))
+        if len(funcs) == 3:
+            pw = uf('pow', 2)
+            wants = [N0[0] / Ne, N0[1] / Ne + t / T * (NF[1] - N0[1]) / Ne, (N0[2] / Ne) * pw(NF[2] / N0[2], t / T)]
+            for i, k in enumerate(kinds):
+                sub = ex.explore(lambda e, _f=funcs[i]: e.call(_f, [t], {}), base_pc=hy + list(rets[0].pc)) if 'base_pc' in ex.explore.__code__.co_varnames else ex.explore(lambda e, _f=funcs[i]: e.call(_f, [t], {}))
+                if len(sub) != 1 or sub[0].outcome != 'return':
+                    out.append(struct('%s.mixed.%s' % (oid, k), False, 'size function does not return on one path: %r' % sub[:2], fn, undecided=True))
+                    continue
+                out.append(prove_eq('%s.mixed.%s' % (oid, k), hy + list(sub[0].pc), sub[0].value, wants[i], fn))
+            # end points of the linear function
+            for nm, tv, want in (('start', z3.RealVal(0), N0[1] / Ne), ('end', T, NF[1] / Ne)):
+                sub = ex.explore(lambda e, _f=funcs[1], _t=tv: e.call(_f, [_t], {}))
+                if len(sub) == 1 and sub[0].outcome == 'return':
+                    out.append(prove_eq('%s.mixed.linear.%s' % (oid, nm), hy + list(sub[0].pc), sub[0].value, want, fn))
+        # unknown size function
+        paths = ex.run(f, [VList([(N0[0], NF[0], 'quadratic')]), T, Ne], {}, base_pc=hy)
+        out.append(struct(oid + '.refuses-unknown', len(paths) == 1 and paths[0].outcome == 'raise', 'an unknown size function raises', fn))
+        return out
+    return go()
+
+
+def c16_integration_parameters():
+    """Demes._get_integration_parameters for a fixed three-epoch structure (oldest first), all sizes, rates and Ne symbolic:
+       T = (start - end)/(2 Ne) (0 for the infinite root epoch); mig[j][i] = 2 Ne m(live[i] -> live[j]), zero diagonal;
+       frozen flags = membership in frozen_list; nu from _make_nu_func(sizes of the live demes in order, T, Ne)."""
+    oid = 'C16/Demes.py:_get_integration_parameters'
+    fn = 'dadi/Demes/Demes.py::_get_integration_parameters'
+
+    @guarded(oid, fn)
+    def go():
+        import math
+        Ne = z3.Real('Ne')
+        hy = [Ne > 0]
+        nu_calls = []
+
+        def pol(fref):
+            q = fref.qualname
+            if q == '_sizes_at_time':
+                return lambda ex_, fr, a, kw: Tm('sizes(%s,%s)' % (a[1], vrepr(a[2])))
+            if q == '_make_nu_func':
+                def h(ex_, fr, a, kw):
+                    nu_calls.append(a)
+                    return Tm('nu%d' % len(nu_calls))
+                return h
+            if q == '_migration_rate_in_interval':
+                return lambda ex_, fr, a, kw: z3.Real('m(%s>%s@%s)' % (a[1], a[2], vrepr(a[3])))
+            return 'inline' if q == '_get_integration_parameters' else 'abstract'
+        ex = Executor(policy=pol)
+        f = ex.func('dadi/Demes/Demes.py', '_get_integration_parameters')
+        present = VDict({(math.inf, 100): VList(['anc']), (100, 40): VList(['A', 'B']), (40, 0): VList(['A', 'B', 'C'])})
+        paths = ex.run(f, [Tm('g'), present, VList(['B'])], dict(Ne=Ne), base_pc=hy)
+        if len(paths) != 1 or paths[0].outcome != 'return':
+            return [struct(oid, False, 'expected one returning path: %r' % paths[:2], fn, undecided=True)]
+        nus, migs, times, frozen = paths[0].value
+        pc = hy + list(paths[0].pc)
+        out = []
+        order = [((math.inf, 100), ['anc']), ((100, 40), ['A', 'B']), ((40, 0), ['A', 'B', 'C'])]
+        tl = ex.iterate(times)
+        out.append(struct(oid + '.epoch-order', len(tl) == 3 and [vrepr(x) for x in ex.iterate(nus)] == ['nu1', 'nu2', 'nu3'], 'epochs processed oldest first', fn))
+        wantT = [z3.RealVal(0), z3.RealVal(60) / 2 / Ne, z3.RealVal(40) / 2 / Ne]
+        for k in range(min(3, len(tl))):
+            out.append(prove_eq('%s.T%d' % (oid, k), pc, tl[k], wantT[k], fn))
+        fl = [list(ex.iterate(x)) for x in ex.iterate(frozen)]
+        out.append(struct(oid + '.frozen', fl == [[False], [False, True], [False, True, False]], 'frozen flags follow frozen_list: %s' % fl, fn))
+        for k, (iv, live) in enumerate(order):
+            a = nu_calls[k] if k < len(nu_calls) else None
+            ok = a is not None and [vrepr(x) for x in ex.iterate(a[0])] == ['sizes(%s,%s)' % (d, vrepr(iv)) for d in live] and a[2] is Ne
+            out.append(struct('%s.nu%d.arguments' % (oid, k), bool(ok), '_make_nu_func(sizes of live demes in order, T, Ne)', fn))
+            if a is not None:
+                out.append(prove_eq('%s.nu%d.T' % (oid, k), pc, a[1], wantT[k], fn))
+            M = [ex.iterate(r) for r in ex.iterate(ex.iterate(migs)[k])]
+            for i, dfrom in enumerate(live):
+                for j, dto in enumerate(live):
+                    want = z3.RealVal(0) if i == j else 2 * Ne * z3.Real('m(%s>%s@%s)' % (dfrom, dto, vrepr(iv)))
+                    out.append(prove_eq('%s.mig%d.to%d.from%d' % (oid, k, j, i), pc, M[j][i], want, fn))
+        return out
+    return go()
+
+
+def c16_migration_rate():
+    """Demes._migration_rate_in_interval(g, source, dest, (I0, I1)): the rate of the last listed migration that applies to (source -> dest)
+    -- an asymmetric record with that source and dest, or a symmetric record containing both -- and whose time window covers the interval
+    (start_time >= I0 and end_time <= I1); 0 when none does.  The reverse direction of an asymmetric record does not count."""
+    oid = 'C16/Demes.py:_migration_rate_in_interval'
+    fn = 'dadi/Demes/Demes.py::_migration_rate_in_interval'
+
+    @guarded(oid, fn)
+    def go():
+        out = []
+        s1, e1, r1, s2, e2, r2, I0, I1 = z3.Reals('s1 e1 r1 s2 e2 r2 I0 I1')
+        hy = [s1 > e1, s2 > e2, I0 > I1, r1 > 0, r2 > 0]
+        for src, dst in (('A', 'B'), ('B', 'A'), ('A', 'C')):
+            ex = Executor()
+            f = ex.func('dadi/Demes/Demes.py', '_migration_rate_in_interval')
+            asym = VObj('asym', source='A', dest='B', start_time=s1, end_time=e1, rate=r1)
+            sym = VObj('sym', demes=VList(['A', 'B']), start_time=s2, end_time=e2, rate=r2)
+            g = VObj('graph', migrations=VList([asym, sym]))
+            paths = ex.run(f, [g, src, dst, (I0, I1)], {}, base_pc=hy)
+            bad = [p for p in paths if p.outcome != 'return']
+            tag = '%s.%s_to_%s' % (oid, src, dst)
+            out.append(struct(tag + '.total', not bad and bool(paths), 'returns on all %d paths' % len(paths) if not bad else 'raising path %r' % bad[:1], fn))
+            c1 = z3.And(s1 >= I0, e1 <= I1) if (src, dst) == ('A', 'B') else z3.BoolVal(False)
+            c2 = z3.And(s2 >= I0, e2 <= I1) if {src, dst} == {'A', 'B'} else z3.BoolVal(False)
+            want = z3.If(c2, r2, z3.If(c1, r1, z3.RealVal(0)))
+            for k, p in enumerate(p_ for p_ in paths if p_.outcome == 'return'):
+                out.append(prove_eq('%s.path%d' % (tag, k), hy + list(p.pc), p.value, want, fn))
+        return out
+    return go()
